@@ -79,7 +79,7 @@ func genSeg(t *rapid.T, decoy string) (string, bool) {
 	case 0, 1, 2, 3, 4:
 		return cleanSeg.Draw(t, "clean"), true
 	case 5:
-		return rapid.SampledFrom([]string{"%20x", "caf%C3%A9", "a%2Bb", "a+b", "x.y", "v1", "chat", "completions"}).Draw(t, "encclean"), true
+		return rapid.SampledFrom([]string{"%20x", "caf%C3%A9", "a%2Bb", "a+b", "x.y", "v1", "chat", "completions", "olla", "olla", "proxy", "openai"}).Draw(t, "encclean"), true
 	default:
 		return rapid.SampledFrom([]string{
 			"..", ".", "%2e%2e", "%2E%2E", "%2E.", ".%2e", "%2e", "..%2f", "..%2F..", "%2e%2e%2f", "%252e%252e", "%252e%252e%252f",
@@ -381,6 +381,9 @@ func TestC16(t *testing.T) {
 	for _, e := range []string{"sherpa", "olla"} {
 		ev.Direct(rec, "target", Case{Engine: e, Prefix: "/olla/proxy/", Base: "/base", Preserve: true, Segs: []string{"%2e%2e", "x"}, Method: "POST"}, runCase)
 		ev.Direct(rec, "target", Case{Engine: e, Prefix: "/olla/proxy/", Base: "/a/b/", Preserve: true, Segs: []string{"v1", "chat", "completions"}, Query: "a=1&a=2", Method: "POST"}, runCase)
+		// a remaining path that itself looks like an Olla route (Olla in front of another Olla)
+		ev.Direct(rec, "target", Case{Engine: e, Prefix: "/olla/proxy/", Base: "", Segs: []string{"olla", "proxy", "v1", "chat"}, Method: "POST"}, runCase)
+		ev.Direct(rec, "target", Case{Engine: e, Prefix: "/olla/openai/", Base: "/base", Preserve: true, Segs: []string{"olla", "openai", "v1", "x"}, Method: "POST"}, runCase)
 	}
 	ev.Check(t, rec, "target", rec.Pick(1500, 20000), genCase, runCase)
 	ev.Check(t, rec, "config", rec.Pick(1500, 20000), genCfg, runCfg)
